@@ -206,6 +206,35 @@ func runC03(c *Ctx) {
 			}
 		}
 	}
+	// the device may be handed on by value (a helper that returns it): locals that receive a
+	// whole-struct copy of the device local hold the same device
+	devLocals := map[ssa.Value]bool{}
+	if devLocal != nil {
+		devLocals[devLocal] = true
+		for grown := true; grown; {
+			grown = false
+			for a := range devLocals {
+				refs := a.Referrers()
+				if refs == nil {
+					continue
+				}
+				for _, ref := range *refs {
+					ld, ok := ref.(*ssa.UnOp)
+					if !ok || ld.Op != token.MUL || ld.Referrers() == nil {
+						continue
+					}
+					for _, r2 := range *ld.Referrers() {
+						if st, ok := r2.(*ssa.Store); ok && st.Val == ssa.Value(ld) {
+							if a2, ok := st.Addr.(*ssa.Alloc); ok && !devLocals[a2] {
+								devLocals[a2] = true
+								grown = true
+							}
+						}
+					}
+				}
+			}
+		}
+	}
 	if len(toOCIcalls) != 1 || devLocal == nil {
 		r.Undecided("C03.3", "anchor:dev-local", c.U.Pos(apply.Pos()), "the local holding the OCI device (result of DeviceNode.toOCI) was not found")
 	}
@@ -215,7 +244,7 @@ func runC03(c *Ctx) {
 			v = ld.X
 		}
 		fa, ok := v.(*ssa.FieldAddr)
-		if !ok || devLocal == nil || fa.X != ssa.Value(devLocal) {
+		if !ok || devLocal == nil || !devLocals[fa.X] {
 			return false
 		}
 		return ir.StructOf(fa.X.Type()).Field(fa.Field).Name() == field
@@ -235,7 +264,7 @@ func runC03(c *Ctx) {
 			addSeen = true
 			arg := call.Common().Args[1]
 			argOK := false
-			if ld, ok := arg.(*ssa.UnOp); ok && devLocal != nil && ld.X == ssa.Value(devLocal) {
+			if ld, ok := arg.(*ssa.UnOp); ok && devLocal != nil && devLocals[ld.X] {
 				argOK = true
 			}
 			r.Check("C03.3", "add-device", gsOK && argOK, c.pos(s.in), fmt.Sprintf("AddDevice(dev) for every node after a successful fill-in (guards %v, argument is the local OCI device: %v)", s.guards, argOK))
